@@ -40,8 +40,8 @@ type vdecl struct {
 	Name     string `json:"name"`
 	Type     int    `json:"type"` // 0 string, 1 int, 2 bool
 	HasValue bool   `json:"hasvalue"`
-	Addr     int    `json:"addr"`  // address of the Go variable of the declaration (HasValue)
-	Init     string `json:"init"`  // its initial text
+	Addr     int    `json:"addr"` // address of the Go variable of the declaration (HasValue)
+	Init     string `json:"init"` // its initial text
 }
 
 // vrun is the entry of a variable in Run's vars.
@@ -850,6 +850,15 @@ func (vc *vcase) oracleRun() (out string, mem map[int]string, panicClass string,
 
 func init() {
 	Register("C17-sweep", func(c *Ctx) {
+		if in := c.ReplayInput(); in == nil || in["otherpkg"] != nil {
+			x := "X"
+			checkOtherPackage(c, "X", "X|P|P|X|P|W|")
+			checkOtherPackage(c, nil, "|P|P||P|W|")
+			checkOtherPackage(c, &x, "X|P|P|X|P|W|")
+			if in != nil {
+				return
+			}
+		}
 		varsCases(c, func(vc *vcase) {
 			c.Count("evaluations")
 			res := vc.run()
@@ -914,4 +923,49 @@ func init() {
 			}
 		})
 	})
+}
+
+// A variable of an imported native package with the name of a global given to
+// Run: Run binds only the variables of package main.
+func checkOtherPackage(c *Ctx, val any, wantOut string) {
+	c.Count("evaluations")
+	pv := "P"
+	m := fstest.MapFS{"index.txt": &fstest.MapFile{Data: []byte(
+		`{% import "pkg" %}{{ V0 }}|{{ pkg.V0 }}|{% macro M %}{{ pkg.V0 }}|{{ V0 }}|{% end %}{{ M() }}{% V0 = "W" %}{{ pkg.V0 }}|{{ V0 }}|`)}}
+	opts := &scriggo.BuildOptions{
+		Globals:  native.Declarations{"V0": (*string)(nil)},
+		Packages: native.Packages{"pkg": native.Package{Name: "pkg", Declarations: native.Declarations{"V0": &pv}}},
+	}
+	detail := map[string]any{"otherpkg": true, "vars": fmt.Sprint(val)}
+	t, err := scriggo.BuildTemplate(m, "index.txt", opts)
+	if err != nil {
+		detail["error"] = err.Error()
+		c.Fail("generated-template-does-not-build", detail)
+		return
+	}
+	var out bytes.Buffer
+	var runErr error
+	vars := map[string]any{}
+	if val != nil {
+		vars["V0"] = val
+	}
+	msg := PanicText(func() { runErr = t.Run(&out, vars, nil) })
+	detail["out"] = out.String()
+	detail["panic"] = msg
+	if msg != "" || runErr != nil {
+		c.Fail("variable-of-other-package-bound", detail)
+		return
+	}
+	if out.String() != wantOut || pv != "P" {
+		detail["want"] = wantOut
+		detail["pkg.V0"] = pv
+		c.Fail("reference-sees-other-value", detail)
+		return
+	}
+	for _, g := range scriggo.VerifGlobals(t) {
+		if g.Name == "V0" && g.Pkg != "main" && g.Pkg != "pkg" {
+			c.Fail("global-not-in-main", detail)
+		}
+	}
+	c.Count("nontrivial")
 }
